@@ -118,18 +118,31 @@ func (u *User) setVersion(v int) error {
 	same := t.Spec.Containers[0].Image == fmt.Sprintf("app:v%d", v)
 	t.Spec.Containers[0].Image = fmt.Sprintf("app:v%d", v)
 	if u.sc.RolloutID && !same {
-		a := o.GetAnnotations()
-		if a == nil {
-			a = map[string]string{}
-		}
-		a[v1beta1.RolloutIDLabel] = fmt.Sprintf("rid-%d-%d", v, u.Actions)
-		o.SetAnnotations(a)
+		u.setRolloutID(o, fmt.Sprintf("rid-%d-%d", v, u.Actions))
 	}
 	err := u.h.Update(u.ctx, o)
 	if err == nil {
 		u.Version = v
 	}
 	return err
+}
+
+// setRolloutID: the documented place is the workload's labels; some users mirror it into the annotation as well
+func (u *User) setRolloutID(o client.Object, id string) {
+	l := o.GetLabels()
+	if l == nil {
+		l = map[string]string{}
+	}
+	l[v1beta1.RolloutIDLabel] = id
+	o.SetLabels(l)
+	if u.sc.RolloutIDAnno {
+		a := o.GetAnnotations()
+		if a == nil {
+			a = map[string]string{}
+		}
+		a[v1beta1.RolloutIDLabel] = id
+		o.SetAnnotations(a)
+	}
 }
 
 func (u *User) backoff() {
@@ -327,12 +340,7 @@ func (u *User) fire(ev *UserEvent) {
 		if o == nil || !u.sc.RolloutID {
 			return
 		}
-		a := o.GetAnnotations()
-		if a == nil {
-			a = map[string]string{}
-		}
-		a[v1beta1.RolloutIDLabel] = fmt.Sprintf("rid-re-%d", u.Actions)
-		o.SetAnnotations(a)
+		u.setRolloutID(o, fmt.Sprintf("rid-re-%d", u.Actions))
 		if webhookDown(u.h.Update(u.ctx, o)) {
 			return
 		}
